@@ -580,6 +580,10 @@ fn fold_constraint_set(
         }
         (SubtypeElements::PermittedAlphabet(elem_or_set), None)
         | (SubtypeElements::SizeConstraint(elem_or_set), None) => {
+            if set.operator == SetOperator::Union {
+                // a union with a part that is not PER-visible is not PER-visible
+                return Ok(None);
+            }
             return match &**elem_or_set {
                 ElementOrSetOperation::Element(e) => Ok(Some(e.clone())),
                 ElementOrSetOperation::SetOperation(s) => {
